@@ -89,6 +89,18 @@ def r1_by_descriptor(ctx):
     return out
 
 
+def r1b_private_procfs_only(ctx):
+    """The fd/<n> lookup happens inside the library's own procfs handle; the host's /proc is never consulted to pick
+    the base directory (so mounts over the host's /proc cannot redirect the reopen)."""
+    from .c06 import r7_base_through_resolver
+    out = []
+    for i in r7_base_through_resolver(ctx):
+        if i.key.endswith(":into_path-root") or i.key.startswith("open_base:"):
+            i.rule = "C09.R6"
+            out.append(i)
+    return out
+
+
 def r2_symlink_refused(ctx):
     F = ctx.facts
     T = ctx.tracer
@@ -308,6 +320,7 @@ def r5_probe_discipline(ctx):
 
 RULES = [
     ("C09.R1", r1_by_descriptor, 3, False),
+    ("C09.R6", r1b_private_procfs_only, 3, False),
     ("C09.R2", r2_symlink_refused, 3, False),
     ("C09.R3", r3_fd_zero_valid, 2, False),
     ("C09.R4", r4_final_open, 2, False),
